@@ -58,7 +58,7 @@ template <class T> static void run_factor_exits(Choice &c, Ctx &cx)
         StorageCfg q = cf; q.lwork = -1; FactorOutcome qo = factor_once<T>(P, q, 0xA5, false);
         long est = std::max<long>(64, (long)qo.info - P.n);
         cf.lwork = exitk == 3 ? 1 + (long)c.below(256) : (long)(est / 2) + (long)(c.u16() % (unsigned)(2 * est + 1));
-        cf.misalign = c.chance(128) ? 4 : 0;
+        cf.misalign = pick_misalign(c.chance(128), cx);
     } else if (exitk == 2) fault = 1 + (long)c.below(8);
     static const unsigned char fills[3] = {0x00, 0xFF, 0x5A};
     FactorOutcome o[3];
